@@ -4,7 +4,7 @@
 cd "$(dirname "$0")"
 for d in seeded/*/; do
   id=$(basename $d); prop=${id%%-*}
-  git -C /repo apply "$d/patch.diff" 2>/dev/null || { echo "$id patch-does-not-apply"; continue; }
+  git -C /repo apply "$PWD/$d/patch.diff" 2>/dev/null || { echo "$id patch-does-not-apply"; continue; }
   VERIF_DIR=/var/tmp/seedrun ./check $prop quick > /var/tmp/reseed.log 2>&1; rc=$?
   git -C /repo checkout -q -- .
   echo "$id rc=$rc $(grep -c '^VIOLATION property' /var/tmp/reseed.log) violation line(s)"
